@@ -76,3 +76,14 @@ import NdnGen.NameGen
 #print axioms Ndn.NameGen.decode_error_of_model
 #print axioms Ndn.NameGen.decode_ok_model
 #print axioms Ndn.NameGen.decode_ok_of_model
+#print axioms Ndn.decodeAt_eq_drop
+#print axioms Ndn.decodeAt_zero
+#print axioms Ndn.decodeAt_outside
+#print axioms Ndn.decodeAt_append
+#print axioms Ndn.NameGen.decode_at_eq
+#print axioms Ndn.NameGen.decode_at_drop
+#print axioms Ndn.NameGen.decode_at_suffix
+#print axioms Ndn.NameGen.decode_at_outside
+#print axioms Ndn.NameGen.decode_at_fuel_suffices
+#print axioms Ndn.NameGen.decode_below
+#print axioms Ndn.NameGen.decode_neg_ok
